@@ -133,7 +133,6 @@ def parseCmd : P String := do
   match decodeText hx with
   | none => pure "bad-op hex"
   | some text =>
-  if containsHex text then pure "skip hexfloat" else
   -- guard the driver against astronomically large declared sizes BEFORE running the main pass
   -- (a `*` over 2^64-1 actions would be expanded eagerly by the model)
   let huge : Bool := match parseModelInfo (splitLines text) {} [] with
